@@ -1,5 +1,5 @@
 ---------------------------- MODULE MCCTFEFaults ----------------------------
 EXTENDS CTFEFaults, Json
-ASSUME MapperDimensionComplete /\ ProofListDimensionComplete /\ EchoDimensionComplete
+ASSUME MapperDimensionComplete /\ ProofListDimensionComplete /\ EchoDimensionComplete /\ EntryShapeDimensionComplete /\ MethodDimensionComplete
 Export == PrintT(<<"CASE", ToJson([c |-> c, expect |-> Exp(c)])>>)
 =============================================================================
